@@ -8,8 +8,8 @@ CONSTANTS
   MetricDefs <- KeyMetrics
   SlotDefs <- KeySlots
   Sizes <- Sz12
-  WWs = {1, 2}
-  MWs = {1, 2}
+  WWs = {1}
+  MWs = {1}
   NWs = {1}
   GWs = {1}
   Buds = {0}
